@@ -43,6 +43,9 @@ CHECKS = {
  "C18": ("history checker over recorded client-boundary histories of the real language server (tower-lsp service, JSON-RPC framing, paused tokio time) under enumerated and randomised delay vectors at its await points (cfg incan_verif hook) and client back-pressure, against a sequential last-writer-wins model",
          "Thousands of burst histories (exhaustive delay vectors for bursts of 2-3 handlers, random for 3-12 messages over 1-3 documents) are executed by the real server; texts are unambiguous per (document, version), so every reply and publish identifies the version it was computed from. Evidence reports the distinct handler store orders actually observed.",
          "Interleaving granularity = the server's existing await points (handlers are polled cooperatively); liveness is restated as quiescence within 60 virtual seconds.", "5/C18"),
+ "C14": ("differential monitor over generated project trees: files picked by the command-line collector vs the language server's resolver (read off marker consts in the loaded sources) vs a reference transcription of the documented rule; visibility / cycle / missing-module scenarios through the real `incan --check` with a watchdog",
+         "Hundreds (thorough: thousands) of directory layouts x import spellings are resolved by the real code paths in-process; every declaration kind x visibility x import form goes through the CLI. Exploration over scenario classes.",
+         "The reference resolver is consulted on layouts where the documented rule is unambiguous (.incn before .incan is documented).", "5/C14"),
 }
 WIP = "check not built yet in this round (work in progress; see DESIGN.md section 5 for the planned monitor)"
 ALL = ["C%02d" % i for i in range(1, 21)]
